@@ -202,7 +202,7 @@ harness(void) {
         if (i < g_nreplayed && g_open_failed[i])
           skipped = 1;
 #if VP_STRICT_LOGOPEN
-      VP_ASSERT(!skipped, "vp:KF:F3 a log that cannot be opened is not silently skipped");
+      VP_ASSERT(!skipped, "KF:F3-log-open-failure-ignored a log that cannot be opened is not silently skipped (its records would be lost)");
 #endif
       if (skipped) {
         VP_ASSERT(!paranoid, "paranoid: failure to open a log fails recovery");
